@@ -110,6 +110,7 @@ pub fn run(id: &str, tier: Tier) -> i32 {
         ),
         "C19" => crate::c19::run(tier),
         "C15" => crate::c15::run(tier),
+        "C14" => crate::c14::run(tier),
         "C16" => crate::e2::run_c16(tier),
         "C05" => crate::e2::run_c05(tier),
         "C11" => crate::c11::run(tier),
